@@ -808,6 +808,128 @@ def scp_worker(job):
 
 
 # ------------------------------------------------------------------ main
+# ------------------------------------------------------------------ the X11 setup prefix a forwarded X client sends
+def x11_worker(job):
+    """SSHX11ClientForwarder (what a client that asked for X11 forwarding runs for every `x11` channel the peer opens)
+    fed with setup prefixes: byte orders x protocol names x cookie lengths 0..32 (right, wrong) x extreme length
+    fields x every chunking into two pieces, byte by byte, with trailing data.  The call returns within the work
+    budget; a wrong cookie gets one refusal and nothing of it reaches the X server side; the right one is passed on
+    with the local cookie in its place."""
+    import signal
+    from asyncssh.x11 import SSHX11ClientForwarder, SSHX11ClientListener
+    from asyncssh.forward import SSHForwarder
+    acc = core.Acc()
+    loop = asyncio.new_event_loop()
+
+    class Budget(Exception):
+        pass
+
+    class Chan:
+        def __init__(self):
+            self.writes, self.eof, self.closed = [], 0, False
+
+        def write(self, data):
+            self.writes.append(bytes(data))
+            if len(self.writes) > 200:
+                raise Budget('more than 200 writes for one prefix')
+
+        def write_eof(self):
+            self.eof += 1
+            if self.eof > 200:
+                raise Budget('more than 200 EOFs for one prefix')
+
+        def close(self):
+            self.closed = True
+
+        def abort(self):
+            self.closed = True
+
+        def pause_reading(self):
+            pass
+
+        def resume_reading(self):
+            pass
+
+        def get_extra_info(self, name, default=None):
+            return default
+
+    def on_prof(_s, _f):
+        raise Budget('more than 5 s of CPU time for one prefix')
+    signal.signal(signal.SIGPROF, on_prof)
+    remote_cookie, local_cookie = bytes(range(16)), bytes(range(100, 116))
+    for endian, proto, cookie, plen_override, dlen_override, chunking, tail in job:
+        lst = SSHX11ClientListener(loop, 'localhost', '0', b'MIT-MAGIC-COOKIE-1', local_cookie)
+        _proto, spoof, _screen = lst.attach('localhost:0', object(), False)    # the cookie announced to the peer for this session
+        if cookie == b'<right>':
+            cookie = spoof
+
+        def u16(v):
+            return v.to_bytes(2, 'big' if endian == b'B' else 'little')
+        padn = lambda d: d + (-len(d) % 4) * b'\0'
+        prefix = endian + b'\0' + u16(11) + u16(0) + u16(len(proto) if plen_override is None else plen_override) + \
+            u16(len(cookie) if dlen_override is None else dlen_override) + b'\0\0' + padn(proto) + padn(cookie) + tail
+        if chunking == 'whole':
+            chunks = [prefix]
+        elif chunking == 'bytes':
+            chunks = [prefix[i:i + 1] for i in range(len(prefix))]
+        else:
+            chunks = [prefix[:chunking], prefix[chunking:]]
+        xside, xchan = SSHForwarder(), Chan()
+        xside.connection_made(xchan)
+        fwd = SSHX11ClientForwarder(lst, xside)
+        schan = Chan()
+        fwd.connection_made(schan)
+        viol = []
+        signal.setitimer(signal.ITIMER_PROF, 5)
+        try:
+            for c in chunks:
+                if c:
+                    fwd.data_received(c)
+        except Budget as exc:
+            viol.append(('work-budget', str(exc)))
+        except Exception as exc:        # pylint: disable=broad-except
+            viol.append(('parser-exception', repr(exc)[:200]))
+        finally:
+            signal.setitimer(signal.ITIMER_PROF, 0)
+        right = cookie == spoof
+        if not viol:
+            complete = plen_override is None and dlen_override is None
+            if complete and not right:
+                # (bytes that FOLLOW a refused prefix are not judged: the X server behind does its own authorization)
+                if not tail.endswith(b''.join(xchan.writes)):
+                    viol.append(('unauthenticated-data-forwarded', '%d bytes reached the X server side although the cookie was wrong' % sum(map(len, xchan.writes))))
+                if len(schan.writes) != 1 or schan.eof != 1:
+                    viol.append(('refusal-count', 'a wrong cookie was answered with %d replies and %d EOFs' % (len(schan.writes), schan.eof)))
+            if complete and right:
+                got = b''.join(xchan.writes)
+                want = prefix.replace(padn(spoof), padn(local_cookie), 1)
+                if got != want or schan.writes:
+                    viol.append(('right-cookie-not-passed-on', 'X server side got %d bytes (expected the prefix with the local cookie, %d bytes), %d replies to the peer'
+                                 % (len(got), len(want), len(schan.writes))))
+            if len(schan.writes) + len(xchan.writes) > len(chunks) + 2:
+                viol.append(('output-not-proportional', '%d writes for %d input chunks' % (len(schan.writes) + len(xchan.writes), len(chunks))))
+        acc.add(core.digest(('x11', endian, proto, len(cookie), right, plen_override, dlen_override, chunking, tail, tuple(k for k, _ in viol))), transitions=len(chunks))
+        for k, d in viol:
+            acc.violation('parser:x11-prefix:%s:cookie-len-%d' % (k, len(cookie)), '%s ; endian=%r proto=%r cookie=%d bytes overrides=%r/%r chunking=%r tail=%d'
+                          % (d, endian, proto, len(cookie), plen_override, dlen_override, chunking, len(tail)),
+                          {'kind': 'x11', 'case': [endian.decode('latin1'), proto.decode('latin1'), cookie.hex(), plen_override, dlen_override, chunking, tail.hex()]})
+    loop.close()
+    return acc
+
+
+def x11_jobs(tier):
+    cases = []
+    for endian in (b'B', b'l', b'x'):
+        for proto in (b'', b'MIT-MAGIC-COOKIE-1', b'XDM-AUTHORIZATION-1', b'M'):
+            for cookie in (b'', b'\1', bytes(15), bytes(16), b'<right>', bytes(17), bytes(32)):
+                for chunking in ('whole', 'bytes', 1, 11, 12, 13):
+                    for tail in (b'', b'more'):
+                        cases.append((endian, proto, cookie, None, None, chunking, tail))
+            for po, do in ((0xffff, None), (None, 0xffff), (0, 0), (0xffff, 0xffff), (1, None), (None, 1)):
+                cases.append((endian, proto, bytes(16), po, do, 'whole', b''))
+    return [cases[i::16] for i in range(16)]
+
+
 def main(tier, seed):
     t0 = core.now()
     acc = core.Acc()
@@ -820,6 +942,7 @@ def main(tier, seed):
     acc.merge(core.pmap(special_worker, ['dropbear']))
     acc.merge(core.pmap(amp_worker, core.rotate(amp_jobs(tier), seed)))
     acc.merge(core.pmap(reader_worker, reader_jobs()))
+    acc.merge(core.pmap(x11_worker, x11_jobs(tier)))
     sc = scp_cases()
     acc.merge(core.pmap(scp_worker, [sc[i::32] for i in range(32)]))
     n_b = acc.evaluations - n_a
@@ -848,6 +971,14 @@ def main(tier, seed):
 
 def replay(rep):
     r = rep['replay']
+    if r.get('kind') == 'x11':
+        c = r['case']
+        acc = x11_worker([(c[0].encode('latin1'), c[1].encode('latin1'), bytes.fromhex(c[2]), c[3], c[4], c[5], bytes.fromhex(c[6]))])
+        print(json.dumps(acc.violations[:3], indent=1, default=repr))
+        if acc.violations:
+            print('VIOLATION property=%s replay=(given)' % PROP)
+            return 1
+        return 0
     if r['kind'] == 'raw':
         acc = raw_worker((r['role'], [(r['label'], bytes.fromhex(r['blob']))]))
     elif r['kind'] == 'msg':
